@@ -3,10 +3,11 @@
 (* buffer size x callback pattern x tween duration x whether the owning      *)
 (* track is paused while the tween runs.  A plain product, printed by TLC.   *)
 EXTENDS Integers, Sequences, TLC, Json
-Params == {"track_vol", "send_vol", "route_vol", "main_vol", "sound_vol", "track_pause", "sound_pause", "track_resume"}
+Params == {"track_vol", "send_vol", "route_vol", "main_vol", "sound_vol", "track_pause", "sound_pause", "track_resume",
+           "main_vol_up", "track_vol_up"}
 Bufs == {4, 16}
 Patterns == {"b", "b_plus_half", "ones", "threes", "big"}
-Durs == {0, 3, 24, 64}
+Durs == {0, 3, 10, 24, 64}
 VARIABLE sc
 Init == sc \in [param : Params, b : Bufs, pat : Patterns, d : Durs, paused : BOOLEAN]
 Next == UNCHANGED sc
